@@ -25,6 +25,23 @@ CHECKS = {
         note="trusts rustc's MIR construction and name resolution, the driver's serialisation, std Mutex/Condvar; unwind edges "
              "(panics inside the render closure) excluded; x86_64 cfg only",
         ref="DESIGN.md section 3 C08"),
+    "C01": dict(
+        technique="value-class taint of entropy-decoded integers to panicking arithmetic; validation-check reconstruction from MIR against a reviewed limit table; blocking-primitive census; lock re-acquisition dataflow",
+        text="Decides four mechanisms the property names, for every input: raw hybrid-uint values never reach checked 32-bit arithmetic, "
+             "shift amounts, divisors, negation or abs() without a dominating ordering comparison (R-RAWINT: each report is a "
+             "reachable panic); 55 named input limits exist as compare->error checks with the reviewed bound (R-LIMIT); running "
+             "out of bits is an error value (R-EOF); nothing blocks except the render-handle wait and no lock is re-acquired "
+             "while held (R-BLOCK). Does not decide general panic-freedom or loop termination.",
+        note="intraprocedural; guards matched by dominance of an ordering comparison on the same value class (under-approximate once any comparison is seen)",
+        ref="DESIGN.md section 3 C01"),
+    "C10": dict(
+        technique="typestate transition-table extraction from MIR and comparison with the container-format reference; guard reconstruction; constant-propagating walk of the header parser's decision tree; must-pass-through",
+        text="Decides the rejection clause and the size arithmetic for all layouts and chunkings: the jxlc/jxlp transition table equals "
+             "the reference (duplicate/out-of-order/late codestream boxes -> error), undersized jxlp/brob boxes and compressed reserved "
+             "types are rejected before the unchecked subtractions, the header parser is prefix-closed for the 64-bit size marker, and the "
+             "consumed-byte counter is updated on every exit. Does not decide byte-exact payload delivery.",
+        note="trusts the reference table transcribed from ISO/IEC 18181-2; Brotli out of scope",
+        ref="DESIGN.md section 3 C10"),
     "C02": dict(
         technique="target-feature must-dataflow on MIR (runtime detection dominance, call-graph summaries) + unsafe-site census with per-class guard obligations + compile_fail witnesses",
         text="Decides for every function and every CPU: a #[target_feature] kernel is only entered where the features are enabled "
